@@ -1,5 +1,6 @@
 import Cello.Config
 import Cello.ConfigType
+import Cello.ConfigThread
 import CelloGen.Cfg
 import Driver.Common
 /- driver for engine `cfg` (C18): interprets the op files of harness/h_cfg.c on the model of Cello/Config.lean under the
@@ -293,6 +294,16 @@ def exitLines (cfgs : List Cfg) (ksts : List Keep.KSt) : IO Unit := do
   IO.println s!"O hexit made={(ksts.head!).used.length} finalised={ls.head!}"
   if !(ls.all (fun n => n == ls.head!)) then IO.println s!"I exit-ledger-differs {ls}"
 
+/-- `w <nvo|na|nl|nt|nr …>`: the creating operation is run by a worker thread that then ends (new_root; pointer published through a
+    C global); the main thread joins and holds the object — `Thr.stepJoined` (Cello/ConfigThread.lean).  Anything else: a plain step. -/
+def parseOpW (ws : List String) : Option (Bool × Op) :=
+  match ws with
+  | "w" :: rest =>
+    match parseOp rest with
+    | some op => if (Cello.Config.Thr.asJoined op).isSome then some (true, op) else none
+    | none => none
+  | _ => (parseOp ws).map (fun op => (false, op))
+
 def main (args : List String) : IO Unit := do
   let lines ← Driver.inputLines args
   let cfgs := Cfg.all
@@ -366,10 +377,10 @@ def main (args : List String) : IO Unit := do
             nDiverge := nDiverge + 1
             IO.println "O model-config-divergence"
       continue
-    match parseOp ws with
+    match parseOpW ws with
     | none => IO.println "O bad-op"; nBad := nBad + 1
-    | some op =>
-      let rs := (cfgs.zip sts).map (fun p => step p.1 op p.2)
+    | some (jw, op) =>
+      let rs := (cfgs.zip sts).map (fun p => Cello.Config.Thr.stepW p.1 jw op p.2)
       let r0 := rs.head!
       match r0.2 with
       | .ok out =>
